@@ -96,7 +96,12 @@ func (s *stream) Read(b []byte) (int, error) {
 					return 0, errors.New("additional HEADERS frame received after trailers")
 				}
 				s.parsedTrailer = true
-				return 0, s.parseTrailer(s.Stream, f.Length)
+				err := s.parseTrailer(s.Stream, f.Length)
+				if err == io.EOF {
+					// the stream ended right behind the header of the trailer's HEADERS frame
+					err = io.ErrUnexpectedEOF
+				}
+				return 0, err
 			default:
 				s.conn.CloseWithError(quic.ApplicationErrorCode(ErrCodeFrameUnexpected), "")
 				// parseNextFrame skips over unknown frame types
@@ -114,6 +119,10 @@ func (s *stream) Read(b []byte) (int, error) {
 		n, err = s.Stream.Read(b)
 	}
 	s.bytesRemainingInFrame -= uint64(n)
+	if err == io.EOF && s.bytesRemainingInFrame > 0 {
+		// the stream ended inside a DATA frame
+		err = io.ErrUnexpectedEOF
+	}
 	return n, err
 }
 
@@ -264,11 +273,16 @@ func (s *requestStream) ReadResponse() (*http.Response, error) {
 
 	// Check that the server doesn't send more data in DATA frames than indicated by the Content-Length header (if set).
 	// See section 4.1.2 of RFC 9114.
-	respBody := newResponseBody(s.stream, res.ContentLength, s.reqDone)
-
 	// Rules for when to set Content-Length are defined in https://tools.ietf.org/html/rfc7230#section-3.3.2.
 	isInformational := res.StatusCode >= 100 && res.StatusCode < 200
 	isNoContent := res.StatusCode == http.StatusNoContent
+	// A response that cannot have content (to a HEAD request, 1xx, 204, 304) may still carry the
+	// Content-Length of the representation: no DATA is owed for it.
+	bodyLength := res.ContentLength
+	if bodyLength > 0 && (s.isHead || isInformational || isNoContent || res.StatusCode == http.StatusNotModified) {
+		bodyLength = 0
+	}
+	respBody := newResponseBody(s.stream, bodyLength, s.reqDone)
 	isSuccessfulConnect := s.isConnect && res.StatusCode >= 200 && res.StatusCode < 300
 	if (isInformational || isNoContent || isSuccessfulConnect) && res.ContentLength == -1 {
 		res.ContentLength = 0
